@@ -172,12 +172,43 @@ def identity_and_chain_scenarios():
     return scns
 
 
+def repeated_goal_term_scenarios():
+    """one goal term reached by call/N several times - on backtracking into the goals before it, in a recursion that
+    passes the goal on, twice in one conjunction - as an inline compound, as a head argument of the calling clause,
+    through a variable and through a chain: call/N leaves the goal term it is given as it found it"""
+    X, Y, G, N, Xs, H = V(0), V(1), V(2), V(3), V(4), V(5)
+    script = {
+        "num/1": [clause(C("num", I(i))) for i in (1, 2, 3)],
+        "foo/3": [clause(C("foo", A("a"), I(i), A(w))) for i, w in ((1, "one"), (2, "two"), (3, "three"))] + [clause(C("foo", A("b"), I(2), A("deux")))],
+        "foo/2": [clause(C("foo", I(1), A("uno")))],
+        "apply/2": [clause(C("apply", G, X), conj(call(C("num", N)), call(C("call", G, N, X))))],
+        "apply3/3": [clause(C("apply3", G, Y, X), conj(call(C("num", N)), call(C("call", G, Y, N, X))))],
+        "each/2": [clause(C("each", G, NIL)), clause(C("each", G, lst([X], Xs)), conj(call(C("call", G, X)), call(C("each", G, Xs))))],
+        "t1/1": [clause(C("t1", X), call(C("apply", C("foo", A("a")), X)))],
+        "t2/1": [clause(C("t2", X), conj(call(C("=", G, C("foo", A("a")))), call(C("num", N)), call(C("call", G, N, X))))],
+        "t3/1": [clause(C("t3", X), call(C("apply3", A("foo"), A("a"), X)))],
+        "t4/2": [clause(C("t4", X, Y), conj(call(C("=", G, C("foo", A("a")))), call(C("apply", G, X)), call(C("apply", G, Y))))],
+        "t5/1": [clause(C("t5", X), conj(call(C("each", C("foo", A("a"), I(1)), lst([A("one"), A("one")]))), call(C("=", X, A("yes")))))],
+        "t6/1": [clause(C("t6", X), conj(call(C("=", G, C("foo", A("a")))), call(C("call", G, I(1), X)), call(C("call", G, I(1), Y)), call(C("=", X, Y))))],
+        "t7/1": [clause(C("t7", X), conj(call(C("num", N)), call(C("call", C("foo", A("a")), N, X))))],
+        "t8/1": [clause(C("t8", X), conj(call(C("=", H, G)), call(C("=", G, C("foo", Y))), call(C("num", N)), call(C("call", H, N, X))))],
+        "t9/1": [clause(C("t9", X), call(C("findall", Y, C("apply", C("foo", A("a")), Y), X)))],
+    }
+    goals = [(C("t%d" % i, V(0)), 1) for i in (1, 2, 3, 5, 6, 7, 8, 9)] + [(C("t4", V(0), V(1)), 2), (C("apply", C("foo", A("b")), V(0)), 1),
+                                                                          (C("apply", C("foo", V(1)), V(0)), 2), (C("each", C("foo", A("a"), I(2)), lst([V(0), V(1)])), 2)]
+    steps = [[{"op": "load", "e": 1, "script": "P", "ow": True}]]
+    for r, (g, q) in enumerate(goals):
+        steps.append([{"op": "solve", "e": 1, "r": r + 1, "goal": g, "qnv": q, "k": 0}])
+    return [{"scripts": {"P": script}, "steps": steps, "keys": []}]
+
+
 def run(tier, seed):
     chk = Check("C09", tier, seed)
     rnd = random.Random(seed)
     scns = scenarios()
     chk.machine_family("builtins-enumerated", scns, features=features)
     chk.machine_family("identity-after-clear-and-chained-definitions-with-cuts", identity_and_chain_scenarios(), features=features, opts_list=[{"must_complete": True}, {"must_complete": True, "mode": "qnil"}])
+    chk.machine_family("one-goal-term-called-repeatedly", repeated_goal_term_scenarios(), features=features, opts_list=[{"must_complete": True}])
     n = 800 if tier == "quick" else 10000
     rs = [gen.random_scenario(rnd, {"meta", "ctl", "dyn", "rich"}, nclauses=3, depth=rnd.choice([2, 3])) for _ in range(n)]
     for i in range(0, n, 4000):
